@@ -5,7 +5,7 @@
    Spec side: ConsFacts.fsem — conjunction, disjunction, at-least-k (sign * count >= k; the
    default sign is + for k >= 1), at-most-k, exactly-one, not-exactly-one, material implication,
    negation of the arguments' truth values; Sem.eval — the arithmetic truth function. *)
-Require Import Puan.Base Puan.Plog Puan.Sem Puan.Cons Puan.ConsFacts Puan.Cic.
+Require Import Puan.Base Puan.Plog Puan.Sem Puan.Cons Puan.ConsFacts Puan.Cic Puan.ConsAll.
 
 (* for every id generator, every 0/1 environment and every well-formed constructor tree (boolean
    leaves; All's arguments are not merged by its set(): true whenever sibling ids are distinct) *)
@@ -56,3 +56,22 @@ Example C04_nonvacuous :
   wf c04_g c04_f /\ fsem c04_env c04_f = 0 /\ eval c04_env (build c04_g c04_f) = 0.
 Proof. vm_compute. repeat split; reflexivity. Qed.
 Print Assumptions C04_nonvacuous.
+
+(* the same for EVERY formula, without the side condition about All: since fix D16 (All counts every operand it was
+   given) nothing but syntax is asked — boolean leaves, explicit signs +1 / -1 — so repeated operands, operands whose
+   ids collide and formulas that errors() rejects are covered too *)
+Theorem C04_truth_functions_every_formula :
+  forall (genid : genid_t) (env : ident -> Z),
+    (forall i, env i = 0 \/ env i = 1) ->
+    forall f : form, wf0 f -> eval env (build genid f) = fsem env f.
+Proof. exact build_sem_all. Qed.
+Print Assumptions C04_truth_functions_every_formula.
+
+(* non-vacuity / regression for D16: All(a, b, a) with the constant id generator is the conjunction a /\ b
+   (before the fix its threshold was 2 and it was true at a = 1, b = 0) *)
+Example C04_repeated_operand :
+  let f := FAll None [FLeaf "a" 0 1; FLeaf "b" 0 1; FLeaf "a" 0 1] in
+  let env := fun i => if String.eqb i "a" then 1 else 0 in
+  wf0 f /\ value_of (build (fun _ _ _ => "G") f) = 3 /\ eval env (build (fun _ _ _ => "G") f) = 0 /\ fsem env f = 0.
+Proof. vm_compute. repeat split; reflexivity. Qed.
+Print Assumptions C04_repeated_operand.
